@@ -74,7 +74,10 @@ Proof.
 Qed.
 
 Lemma item_drain f : item_of (drain_fut f) = item_of f.
-Proof. unfold drain_fut, item_of. destruct (fstat f) eqn:E; simpl; rewrite ?E; reflexivity. Qed.
+Proof.
+  unfold drain_fut, item_of. destruct (fstat f) eqn:E; simpl; rewrite ?E; try reflexivity.
+  destruct (is_zero (ftmo f)); simpl; rewrite ?E; reflexivity.
+Qed.
 
 (* ---- the two container primitives ---- *)
 Lemma perm_put kd x (enq deq q : list Z) :
@@ -219,6 +222,14 @@ Proof.
     destruct r1; inversion H; subst; clear H; try exact G1.
     destruct G1 as [A [B [C D]]]. constructor; simpl; auto.
     rewrite <- app_assoc. rewrite D. apply Permutation_middle.
+  - (* Next *)
+    unfold i_get in H. destruct (i_get_nowait kd m s) as [r1 s1] eqn:E.
+    pose proof (ghost_get_nowait _ _ _ _ _ I G E) as G1.
+    destruct r1; inversion H; subst; clear H; try exact G1.
+    + destruct G1 as [A [B [C D]]]. constructor; simpl; auto.
+      rewrite resitems_app. change (item_of _) with [z]. rewrite app_assoc.
+      rewrite <- Permutation_cons_append. exact D.
+    + eapply GInv_ext; [..|exact G1]; try reflexivity. simpl. rewrite resitems_app. simpl. rewrite app_nil_r. reflexivity.
   - (* TaskDone *)
     unfold i_task_done in H. destruct G as [G1 G2 G3 G4].
     destruct (iunf s) as [|n] eqn:U; inversion H; subst; clear H.
@@ -235,7 +246,7 @@ Proof.
     assert (GD : GInv kd (i_drain s)).
     { eapply GInv_ext; [..|exact G]; try reflexivity. simpl. rewrite resitems_map; [reflexivity|apply item_drain]. }
     destruct (nth_error (ifuts (i_drain s)) k) as [f|] eqn:E; [|exact GD].
-    destruct (is_pending (fstat f) && ftmo f) eqn:P; [|exact GD].
+    destruct (is_pending (fstat f) && is_timer (ftmo f)) eqn:P; [|exact GD].
     eapply GInv_ext; [..|exact GD]; try reflexivity. simpl.
     apply resitems_upd_nonitem; [discriminate|]. intros f' Hf'. simpl in E. rewrite E in Hf'. inversion Hf'; subst.
     apply andb_true_iff in P. destruct P as [P _]. unfold item_of. destruct (fstat f'); try discriminate; reflexivity.
